@@ -2,26 +2,27 @@
 """Re-evaluates every stored seed against the CURRENT checks (own property's quick check, plus C15 for the two seeds that
 break the replay path) and the control refactoring against all 20; prints one line per seed and a summary.
 usage: python3 tools/reseed_all.py [name-prefix]"""
-import glob, json, os, subprocess, sys, shutil
+import glob, json, os, re, subprocess, sys, shutil
 V = "/verif"
 pref = sys.argv[1] if len(sys.argv) > 1 else ""
 missed = []
 for d in sorted(glob.glob(os.path.join(V, "seeded", "*"))):
     name = os.path.basename(d)
-    if not name.startswith(pref):
+    if not (name.startswith(pref) or (pref and re.match(pref, name))):
         continue
     meta = json.load(open(os.path.join(d, "meta.json")))
     if name.startswith("control"):
         checks = [f"C{i:02d}" for i in range(1, 21)]
     else:
         checks = [meta["property"]] + (["C15"] if name in ("C03-d", "C14-d") else [])
-    shutil.rmtree("/tmp/rerun", ignore_errors=True); os.makedirs("/tmp/rerun")
+    RR = f"/tmp/rerun_{os.getpid()}"
+    shutil.rmtree(RR, ignore_errors=True); os.makedirs(RR)
     for f in ("patch.diff", "demo.py", "meta.json"):
         if os.path.exists(os.path.join(d, f)):
-            shutil.copy(os.path.join(d, f), "/tmp/rerun")
+            shutil.copy(os.path.join(d, f), RR)
     if name.startswith("control"):
         # control: patch must apply, tests pass, and NO check may fire
-        wt = "/tmp/ctrlwt"
+        wt = f"/tmp/ctrlwt_{os.getpid()}"
         subprocess.run(["git", "-C", "/repo", "worktree", "remove", "--force", wt], capture_output=True)
         subprocess.run(["git", "-C", "/repo", "worktree", "add", "-q", "--detach", wt, "HEAD"], check=True)
         subprocess.run(["git", "-C", wt, "apply", os.path.join(d, "patch.diff")], check=True)
@@ -36,7 +37,7 @@ for d in sorted(glob.glob(os.path.join(V, "seeded", "*"))):
         if fired:
             missed.append(name + " (control fired " + ",".join(fired) + ")")
         continue
-    p = subprocess.run(["python3", "tools/keep_seed.py", "/tmp/rerun", name] + checks, cwd=V, capture_output=True, text=True)
+    p = subprocess.run(["python3", "tools/keep_seed.py", RR, name] + checks, cwd=V, capture_output=True, text=True)
     line = (p.stdout.strip().splitlines() or ["{}"])[-1]
     try:
         r = json.loads(line)
@@ -46,4 +47,5 @@ for d in sorted(glob.glob(os.path.join(V, "seeded", "*"))):
     print(name, r.get("caught"), "" if ok else "   <-- MISSED", flush=True)
     if not ok:
         missed.append(name)
+shutil.rmtree(f"/tmp/rerun_{os.getpid()}", ignore_errors=True)
 print("missed:", missed or "none")
